@@ -12,15 +12,23 @@ PID = "C08"
 LEAN_MODULE = "NanoVerif.Props.C08"
 OBLIGATIONS = [
     "NanoVerif.C08.sort_enumeration_independent",
+    "NanoVerif.C08.schedule_independent",
+    "NanoVerif.run_fix",
+    "NanoVerif.fix_unique",
     "NanoVerif.C08.keys_eq_of_perm",
     "NanoVerif.C11.sortByKey_perm",
     "NanoVerif.C11.sortByKey_sorted",
 ]
 DESIGN_REF = "DESIGN.md §5 C08"
-LEVEL_TEXT = ("Partial proof (logic) + observation (runtime). Proved in Lean: sorting a collection by a key that is injective on it yields the same list "
+LEVEL_TEXT = ("Proof (logic) + observation (runtime). Proved in Lean: (1) sorting a collection by a key that is injective on it yields the same list "
               "for every enumeration order — the canonicalisation nanoemoji applies wherever a set feeds an ordered output (sources by absolute path, "
-              "blank glyph names, palette, defs ids, part files); palette order independence is additionally checked in C15. NOT proved: that every set "
-              "iteration in the code is so guarded, ninja schedule confluence, third-party determinism. Those are observed through the REAL CLI: the "
+              "blank glyph names, palette, defs ids, part files); palette order independence is additionally proved in C15; (2) schedule "
+              "independence — for every graph of pure steps, any two schedules in which each step runs once and after its inputs (ninja -j1, -j16, "
+              "any ready-queue order) leave the same content in every file (`schedule_independent`, via `run_fix`/`fix_unique`, induction over "
+              "the schedule, no bound on graph size). The schedule model is tied to the REAL ninja binary: generated DAGs of shell steps are run with "
+              "shuffled declaration order and -j1/-j3/-j8; ninja's own execution order must be a valid schedule of the model and the file contents "
+              "must be the model's. NOT proved: that every set iteration in the code is guarded by a sort and that every step is a pure function of "
+              "its DECLARED inputs (third-party determinism, undeclared inputs). Those are observed through the REAL CLI: the "
               "same source set is built with SOURCE_DATE_EPOCH fixed under permuted argument order, PYTHONHASHSEED values, ninja -j1/-j16 (PATH shim), "
               "different build directories, different working directories with differently spelled relative paths across two source directories; "
               "sha256 of the output font must be identical, for COLRv1, OT-SVG and glyf formats (bitmap formats in the thorough tier).")
@@ -117,12 +125,86 @@ def suite(ctx, res, formats):
         shutil.rmtree(root, ignore_errors=True)
 
 
+DAG_STEP_SH = """#!/bin/sh
+# out = (sum of the input files' numbers) * 31 + n * 7 + 1 ; sleeps a little so that -jN really overlaps steps
+n=$1; out=$2; shift 2
+sum=0
+for f in "$@"; do sum=$(( sum + $(cat "$f") )); done
+sleep 0.0$(( (n * 7) % 5 ))
+echo $n >> trace
+echo $(( sum * 31 + n * 7 + 1 )) > "$out"
+"""
+
+
+def gen_dag(rng):
+    n = rng.randint(4, 9)
+    deps = [[]]
+    for i in range(1, n):
+        k = rng.choice([0, 1, 1, 2, 3]) if i > 1 else rng.choice([0, 1])
+        deps.append(sorted(rng.sample(range(i), min(k, i))))
+    return deps
+
+
+def run_dag(job):
+    """real ninja on a generated DAG of `sh step.sh` edges: declaration order shuffled, -j1 / -jN"""
+    import subprocess
+    hid, deps, order, jobs = job
+    d = common.scratch_dir("c08dag")
+    try:
+        (d / "step.sh").write_text(DAG_STEP_SH)
+        lines = ["rule step", "  command = sh step.sh $n $out $in", ""]
+        for i in order:
+            lines += [f"build o{i}: step " + " ".join(f"o{k}" for k in deps[i]), f"  n = {i}", ""]
+        (d / "build.ninja").write_text("\n".join(lines))
+        (d / "trace").write_text("")
+        p = subprocess.run(["/venv/bin/ninja", "-C", str(d), f"-j{jobs}"], capture_output=True, text=True)
+        vals = [(d / f"o{i}").read_text().strip() if (d / f"o{i}").exists() else None for i in range(len(deps))]
+        trace = [int(x) for x in (d / "trace").read_text().split()]
+        return {"hid": hid, "rc": p.returncode, "values": vals, "trace": trace}
+    finally:
+        shutil.rmtree(d, ignore_errors=True)
+
+
+def suite_ninja_dag(ctx, res, n):
+    """Tie for Model/Sched.lean: the order in which the real ninja runs a DAG of pure steps is a valid schedule of the model, and the
+    contents it leaves are the model's, for shuffled declaration orders and -j1/-j8."""
+    jobs, ops = [], []
+    for h in range(n):
+        deps = gen_dag(ctx.rng)
+        for v in range(3):
+            order = list(range(len(deps)))
+            ctx.rng.shuffle(order)
+            jobs.append((h, deps, order, [1, 8, 3][v]))
+    with ThreadPoolExecutor(max_workers=8) as ex:
+        results = list(ex.map(run_dag, jobs))
+    for (h, deps, order, j), r in zip(jobs, results):
+        ops.append({"op": "sched-run", "deps": [[str(x) for x in dl] for dl in deps], "schedule": [str(x) for x in r["trace"]]})
+    models = ctx.driver.run(ops)
+    first = {}
+    for (h, deps, order, j), r, m in zip(jobs, results, models):
+        res.count(key=("dag", h, j, stable_hash(order)), nontrivial=True)
+        tr = r["trace"]
+        valid = r["rc"] == 0 and sorted(tr) == list(range(len(deps))) and all(all(tr.index(k) < tr.index(i) for k in deps[i]) for i in tr)
+        if not valid:
+            res.add_tie_break("ninja ran a DAG in an order that is not a valid schedule (every step once, after its inputs)",
+                              {"deps": deps, "declared": order, "jobs": j}, "valid schedule", r)
+            continue
+        if m.get("values") != r["values"]:
+            res.add_tie_break("contents after real ninja vs Model/Sched.lean on ninja's own execution order", {"deps": deps, "trace": tr}, m, r["values"])
+        res.stat("dag:orders-seen:" + ("same-as-first" if first.setdefault(h, tr) == tr else "different"))
+        if first.get((h, "v"), r["values"]) != r["values"]:
+            res.add_cex("the same graph of pure steps ended with different contents under another ninja schedule",
+                        {"deps": deps, "values": [first[(h, "v")], r["values"]]}, {"site": "c08-dag", "deps": deps})
+        first.setdefault((h, "v"), r["values"])
+
+
 def run(ctx, res):
     nano.init()
     res.rule = ("one generated 4-source set (two source directories, a ZWJ sequence) + 2 fixed sources sharing an outline across glyphs with different fill and opacity x formats {glyf_colr_1, picosvg, glyf} (+cbdt, glyf_colr_0, untouchedsvg in "
                 "thorough) x 9 variants: argv permutations, PYTHONHASHSEED in {0,1,2,3,4,5,7,12345,random}, ninja -j1/-j16, three working directories with relative "
                 "paths, absolute paths, build directory location; non-trivial = every variant other than the baseline")
     formats = ["glyf_colr_1", "picosvg", "glyf"] + (["cbdt", "glyf_colr_0", "untouchedsvg"] if ctx.thorough else [])
+    suite_ninja_dag(ctx, res, ctx.budget(8, 120))
     suite(ctx, res, formats)
 
 
